@@ -191,22 +191,36 @@ func c20Events(rng *rand.Rand, n int, _ []string) {
 		"a = b\n++c\nreturn\nx\nvar s = \"unterminated\n",
 		"let t: Array<number> = <T>(x: T): T => x; interface I { a?: string } type U = A | B & C;\n",
 		"<div className=\"a\">{x}<b/>text</div>;\n",
+		"// one\n// two\n(x = f(1 /* first */, 2), y /* second */) => x + y;\n/* a */ /* b */ (p /* c */, q /* d */) => { return p /* e */ }\n",
+		"a = 1; // c1\n/* c2 */ b = (c /* c3 */ + d) /* c4 */ ;\n// c5\nfor (/* c6 */ ;;) { /* c7 */ }\n",
 	}
 	jsonSeeds := []string{
 		`{"a": [1, 2.5e3, -0, true, false, null], "b": {"c": "d\né"}, "e": []}`,
 		`[[], {}, [{"x": [1, [2, [3]]]}], "s"]`,
-		` 42 `, `"str"`, `{"a":}`, `[1,,2]`, `{`, ``,
+		` 42 `, `"str"`, `{"a":}`, `[1,,2]`, `{`, ``, "[1, /* c */ }", "{ /* c */ ]", "[1] /* tail */",
 	}
 	testSeeds := []string{
 		" decl2 decl1(a)", "{decl2}", "{-decl2}", "{--}", "if(as) decl2 else if(as) decl2 else decl2", "{decl1(a.b.c.d123)}",
 		"42 7 9 ", "{3 9 11 9}", " test (   )  ", "test { decl1 }", "{-- 5 9[] 3}", "if(f_a as f_a) decl2", "9\n\n9 ",
-		"decl2 % q\n% q\ndecl2", "{ decl2 decl2 } eval(1+2*3)", "eval (1", "{{{", "decl1(", "if (", "%%", "",
+		"decl2 % q\n% q\ndecl2", "  //cmnt\n)", "decl1(abcdef)", "decl2 //c\n(", "{ decl2 decl2 } eval(1+2*3)", "eval (1", "{{{", "decl1(", "if (", "%%", "",
 	}
 	type target struct {
 		name  string
 		seeds []string
 		run   func(text string) ([][3]int, string)
 	}
+	// one Parser per target that is initialised once and reused for every second input (a Parser may be reused:
+	// what one parse leaves behind must not leak into the next one)
+	reuse := false
+	var cur *[][3]int
+	var tmP tm.Parser
+	tmP.Init(func(tm.SyntaxError) bool { return true }, func(t tm.NodeType, offset, endoffset int) { *cur = append(*cur, [3]int{int(t), offset, endoffset}) })
+	var jsP js.Parser
+	jsP.Init(func(js.SyntaxError) bool { return true }, func(t js.NodeType, offset, endoffset int) { *cur = append(*cur, [3]int{int(t), offset, endoffset}) })
+	var jsonP json.Parser
+	jsonP.Init(func(t json.NodeType, offset, endoffset int) { *cur = append(*cur, [3]int{int(t), offset, endoffset}) })
+	var testP test.Parser
+	testP.Init(func(t test.NodeType, flags test.NodeFlags, offset, endoffset int) { *cur = append(*cur, [3]int{int(t), offset, endoffset}) })
 	targets := []target{
 		{"tm", tmSeeds, func(text string) ([][3]int, string) {
 			var evs [][3]int
@@ -214,6 +228,11 @@ func c20Events(rng *rand.Rand, n int, _ []string) {
 			st := guarded(func() {
 				var s tm.TokenStream
 				s.Init(text, l)
+				if reuse {
+					cur = &evs
+					tmP.ParseFile(context.Background(), &s)
+					return
+				}
 				var p tm.Parser
 				p.Init(func(tm.SyntaxError) bool { return true }, l)
 				p.ParseFile(context.Background(), &s)
@@ -226,6 +245,11 @@ func c20Events(rng *rand.Rand, n int, _ []string) {
 			st := guarded(func() {
 				var s js.TokenStream
 				s.Init(text, l)
+				if reuse {
+					cur = &evs
+					jsP.ParseModule(context.Background(), &s)
+					return
+				}
 				var p js.Parser
 				p.Init(func(js.SyntaxError) bool { return true }, l)
 				p.ParseModule(context.Background(), &s)
@@ -237,6 +261,11 @@ func c20Events(rng *rand.Rand, n int, _ []string) {
 			st := guarded(func() {
 				var l json.Lexer
 				l.Init(text)
+				if reuse {
+					cur = &evs
+					jsonP.Parse(&l)
+					return
+				}
 				var p json.Parser
 				p.Init(func(t json.NodeType, offset, endoffset int) { evs = append(evs, [3]int{int(t), offset, endoffset}) })
 				p.Parse(&l)
@@ -248,6 +277,11 @@ func c20Events(rng *rand.Rand, n int, _ []string) {
 			st := guarded(func() {
 				var l test.Lexer
 				l.Init(text)
+				if reuse {
+					cur = &evs
+					testP.ParseTest(context.Background(), &l)
+					return
+				}
 				var p test.Parser
 				p.Init(func(t test.NodeType, flags test.NodeFlags, offset, endoffset int) {
 					evs = append(evs, [3]int{int(t), offset, endoffset})
@@ -271,6 +305,7 @@ func c20Events(rng *rand.Rand, n int, _ []string) {
 		if len(text) > 6000 {
 			text = text[:6000]
 		}
+		reuse = (i/len(targets))%2 == 1
 		evs, st := tg.run(text)
 		sx.Case("c20.events", sx.List(sx.Str(tg.name), sx.Int(len(text)), sx.Str(text)), sx.List(st, evStr(evs)))
 		sx.Stat("events_"+tg.name+"_"+kind, 1)
